@@ -66,6 +66,8 @@ type DecodeRes struct {
 	CorrOld  byte      `json:"corr_old,omitempty"`
 	CorrNew  byte      `json:"corr_new,omitempty"`
 	Died     string    `json:"died,omitempty"` // set by the parent when the child process died or hung
+	Slow     bool      `json:"slow,omitempty"` // set by the parent: answered only after the first timeout / after a repetition
+	Note     string    `json:"note,omitempty"`
 }
 
 func panicSite() string {
